@@ -343,6 +343,8 @@ def rule_m2345(prog: Program, col: Collector) -> None:
             fr = gmeth.get("_filter_out_coalitions")
             frv = list(fterms(prog, fr).of_kind("return")) if fr else []
             fp = fr.positional_params() if fr else []
+            if fp and fp[0] != "self":
+                fp = ["self"] + fp          # a @staticmethod helper: (values, coalitions) without self
             ident = any(x.value == ("param", fp[1]) and any(f[0] == "if" and f[2] is True and f[1] == ("cmp", "is", ("param", fp[2]), ("const", None)) for f in x.ctx)
                         for x in frv) if fr else False
             # ... or the same as one folded formula (guard inverted, body moved into a helper that is read through): values if coalitions is None else ...
